@@ -180,6 +180,11 @@ fn fold_soup(tape: &[u32], st: &mut Stats) -> CaseResult {
     differential("C02", &text, &case.table, &ROUTES, origin, st)
 }
 
+/// entry for the coverage-guided fuzz target (the bytes are the choice tape)
+pub fn fuzz_entry(tape: &[u32], st: &mut Stats) -> CaseResult {
+    fold_soup(tape, st)
+}
+
 pub fn def() -> PropDef {
     PropDef {
         id: "C02",
@@ -205,6 +210,7 @@ pub fn def() -> PropDef {
                 kind: Kind::Tape { len: 500, quick: 40_000, thorough: 2_000_000, f: fold_soup },
             },
             super::c03::f15_subcheck(),
+            crate::fuzzdrv::differential_subcheck(),
         ],
     }
 }
